@@ -309,6 +309,25 @@ def run(c) -> CaseResult:
                 res.fail(f"C08.functional-form.grad:{cls}:{which}" + (f":constraint={c.get('constraint')}" if cls == "Conv1d" else ""),
                          f"gradient {i} of the module differs from the functional form's")
                 break
+    # (a') a second call of the same module instance with another batch shape: no state may carry over from the first call
+    if all(x.is_floating_point() for x in xs) and len(xs) == 1 and cls not in ("Softmax",):
+        x0 = xs[0]
+        g2 = torch.Generator().manual_seed(c["seed"] + 77)
+        shape2 = ([2] + list(x0.shape)) if cls not in ("Conv1d", "MHSA", "TransformerLayer") else ([x0.shape[0] + 1] + list(x0.shape[1:]) if x0.dim() == 3 else list(x0.shape))
+        xb = torch.randn(shape2, generator=g2, dtype=x0.dtype).requires_grad_()
+        try:
+            torch.manual_seed(c["seed"] + 1)
+            yb1 = m(xb)
+            torch.manual_seed(c["seed"] + 1)
+            yb2 = fn(m, xb)
+            upb = torch.randn(yb1.shape, generator=g2, dtype=yb1.dtype)
+            gb1 = grads_of(yb1, [xb] + params, upb)
+            gb2 = grads_of(yb2, [xb] + params, upb)
+            if not same(yb1, yb2) or not all((a is None) == (b is None) and (a is None or same(a, b)) for a, b in zip(gb1, gb2)):
+                res.fail(f"C08.second-call:{cls}", f"second call of the same module with input shape {shape2} differs from the functional form (state carried over from the first call?)")
+            res.labels.append("second-call")
+        except Exception as e:  # noqa: BLE001
+            res.fail(exc_bucket(f"C08.second-call.raises:{cls}", e), f"{type(e).__name__}: {e}")
     # (b) torch.nn twin sharing the state_dict
     if twin is not None:
         fl2 = [x.clone().requires_grad_() if x.is_floating_point() else x for x in xs]
@@ -563,7 +582,7 @@ CHECK = Check(
     rule=("forms: Hypothesis over module class x every constructor option (constraint incl. None, mult, approximate, bias, "
           "stride/padding/dilation/groups, padding_mode in {zeros,reflect,replicate,circular}, eps, elementwise_affine, padding_idx, max_norm, "
           "ignore_index, reduction, dropout_p, is_causal, heads, expansion, layers) x train/eval x input shapes (float64). Oracle (a) the "
-          "documented functional form evaluated on the module's own parameters, outputs and all gradients bitwise; (b) torch.nn twin with the "
+          "documented functional form evaluated on the module's own parameters, outputs and all gradients bitwise, also for a second call of the same instance with another batch shape; (b) torch.nn twin with the "
           "same options and load_state_dict: identical shape, one positive scalar (==1 for losses/norms/embedding), gradients likewise. "
           "unsupported: every unsupported constructor option must raise. init: statistics of freshly constructed weights (7-sigma windows, "
           "n >= 256), zero biases, unit gains, tag table, depth == len(container) inside depth containers and None outside, containers "
